@@ -337,6 +337,12 @@ namespace vf_stack
             auto rel0 = u.src->releases();
             auto att0 = u.src->attempts();
             s.unwind(m.m);
+            // the property's own clauses first (a broken unwind may also trip the library's pointer check, judged below)
+            if (s.capacity_left() != m.cap)
+                viol("C06", key("C06", "capacity-after-unwind"), "capacity_left() after unwind is %zu, it was %zu when the marker was taken",
+                     s.capacity_left(), m.cap);
+            if (!(s.top() == m.m))
+                viol("C06", key("C06", "top-after-unwind"), "top() after unwind(m) does not compare equal to m");
             u.src->check();
             frg.check("unwind");
             if (u.src->releases() != rel0)
@@ -831,6 +837,10 @@ namespace vf_stack
         void run(int ops)
         {
             member = r.chance(40);
+            // overlapping or overwritten allocations and capacity that grows on allocation are, for this allocator, violations of the
+            // region discipline C07 states as well
+            cx().also     = "C07";
+            cx().also_for = "C01 C18";
             std::size_t bs;
             switch (r.below(4))
             {
